@@ -158,10 +158,10 @@ func (m *machine) check(extra *smt.Term, timeout time.Duration, wantModel bool) 
 	}
 	t0 := time.Now()
 	defer func() { m.solverTime += time.Since(t0) }()
+	for _, v := range vars {
+		m.script.Ref(v) // declare before use; no emission inside the racing goroutines
+	}
 	if m.h.Race && len(m.solvers) > 1 {
-		for _, v := range vars {
-			m.script.Ref(v) // no emission inside the racing goroutines
-		}
 		return m.race(ex, timeout, vars)
 	}
 	// escalation: each solver with a short slice first, then the full timeout
@@ -366,6 +366,11 @@ func (m *machine) replayInputs(model smt.Model) []ReplayInput {
 }
 
 func (m *machine) addViolation(kind, label, msg string, model smt.Model) {
+	if model == nil && len(m.ctx.Vars) > 0 {
+		// no model of the path condition could be obtained: not reportable, not a pass
+		m.inconcl = append(m.inconcl, fmt.Sprintf("%s %s (%s) reached, but the solver gave no model of the path condition", kind, label, firstLine(msg)))
+		return
+	}
 	m.violations = append(m.violations, Violation{
 		Harness: m.h.Name, Label: label, Kind: kind, Msg: msg,
 		Inputs: m.replayInputs(model), Path: append([]int(nil), m.log...),
